@@ -78,6 +78,8 @@ WHERES = [
     ('t_isnot_true', '{t}.a IS NOT TRUE', [('t', 'top', 'isnot', 'a', True)]),
     ('t_or_t', '{t}.a = 1 OR {t}.x = 2', [('t', 'or', 'eq', 'a', 1), ('t', 'or', 'eq', 'x', 2)]),
     ('t2_const_first', '1 < t2.b', [('t2', 'top', 'gt', 'b', 1)]),
+    ('m_p_eq', '{m}.p = 5', [('m', 'top', 'eq', 'p', 5)]),
+    ('m_p_and_p1', "{m}.p = 5 AND {m}.p1 = 'v'", [('m', 'top', 'eq', 'p', 5), ('m', 'top', 'eq', 'p1', 'v')]),
 ]
 ALIASES = [('none', None, None), ('as', 'ta', 'ma'), ('upper', 'TA', 'MA')]
 USINGS = [('none', '', None, None), ('one', 'USING x = 1', {'x': 1}, None), ('mixed_case', "USING X = 1, Yy = 'a'", {'x': 1, 'yy': 'a'}, None),
@@ -200,6 +202,12 @@ TS_PART = [('none', None), ('eq', "t.g = 'a'"), ('in', "t.g IN ('a', 'b')")]
 
 
 def ts_catalog(window, ngroup):
+    if ngroup in (None, 'missing'):
+        # optional metadata: the key present with value None / the key absent  (= no partition columns)
+        meta = dict(name='tp', integration_name='mindsdb', timeseries=True, order_by_column='ts', window=window)
+        if ngroup is None:
+            meta['group_by_columns'] = None
+        return dict(integrations=['int1'], predictor_metadata=[meta])
     groups = ['g', 'h'][:ngroup]
     return dict(integrations=['int1'], predictor_metadata=[dict(name='tp', integration_name='mindsdb', timeseries=True, order_by_column='ts',
                                                                group_by_columns=groups, window=window)])
